@@ -6,9 +6,6 @@ CONSTANTS
   MinZero = TRUE
   KEdge = 2
   KOut = 4
-  Variant = "repaired"
-INVARIANT TypeOK
-INVARIANT NoCrash
-INVARIANT ReturnedOK
+  Variant = "pinned"
 PROPERTY Termination
 CHECK_DEADLOCK FALSE
